@@ -15,14 +15,14 @@ from vf import drivers
 PROPERTY = "C07"
 LEVEL = "exploration"
 SHARDS = {"quick": 4, "thorough": 16}
-REQUIRED = ["path-model", "open-audit", "own-path-sweep", "redirect-follow", "audit-open-events-seen", "mounted-app"]
+REQUIRED = ["path-model", "open-audit", "own-path-sweep", "redirect-follow", "audit-open-events-seen", "mounted-app", "in-flight-together-equals-alone"]
 RULE = ("Sandbox root/{secret.txt, static-secret.txt, static2/s.txt, static/...}; served directory static/ = {a.txt, index.html, x.html, ..name, .hidden, "
         "%2e%2e, é.txt, dir/{index.html,b.txt}, dir2/c.txt (no index), static/inner.txt}. Exhaustive request paths over the 21-segment alphabet {'', '.', '..', "
         "a.txt, dir, dir2, ..name, %2e%2e, index.html, x, x.html, é.txt, static, static2, secret.txt, nope, index, b.txt, .hidden, static-secret.txt, sock (a unix socket: exists but is not a regular file)} to depth 3 (thorough 4) with/without "
         "trailing slash (plus the empty path) x Files/Pages x WSGI/ASGI, directory given absolute (full depth; also with a custom handle_404 application and non-default cache settings), relative to a changed cwd and "
         "package-relative (depth 2); one file sits at a path longer than 255 characters. "
         "Non-trivial = path containing '..', '.', an empty or dotted segment, or touching a directory; paths are distinct by construction.")
-RULE += ' Also: page names containing dots (v1.2.html at /v1.2), the app mounted below root paths, an undecodable query string or malformed Host next to every own path.'
+RULE += ' Also: 2-5 requests in flight together on one app object (each client gets what it gets alone); page names containing dots (v1.2.html at /v1.2), the app mounted below root paths, an undecodable query string or malformed Host next to every own path.'
 ASSUMPTIONS = [
     "resolution is lexical (symbolic links are not part of the workload)",
     "where the statement is silent — a trailing slash after something that is not a directory — {what the slash-less path serves, 404} are both accepted",
@@ -203,6 +203,12 @@ def judge(ctx, audit, iface, kind, form, served_abs, app, path, root=""):
     return got
 
 
+def in_flight(ctx, iface, kind, app, paths):
+    from vf import inflight
+    reqs = [drivers.Req(path=p.encode("utf-8"), server=("t", 80)) for p in paths]
+    inflight.check_group(ctx, iface, app, reqs, kind.lower(), {"app": kind, "in_flight_paths": paths, "directory_form": "absolute"})
+
+
 def nontrivial(path):
     segs = path.split("/")
     return any(s in ("", ".", "..") or s.startswith(".") or s in ("dir", "dir2", "static") for s in segs[1:] if True)
@@ -210,6 +216,13 @@ def nontrivial(path):
 
 def run(ctx):
     from baize import asgi, wsgi
+    # ---- the FIRST file served by a fresh server process, pre-empted by a second request (one child process per switch point, vf/firstuse.py)
+    if ctx.shard == 0:
+        from vf import firstuse
+        firstuse.explore(ctx, "file", "files", max_points=12 if ctx.quick else 400)
+        ctx.case(("first-use", "file"))
+    else:
+        ctx.mon("first-use-pre-empted(fresh process)", 0)
     root = os.path.realpath(ctx.tmpdir("sandbox"))
     served = os.path.join(root, "static")
     make_tree(served, TREE)
@@ -343,6 +356,15 @@ def run(ctx):
             (form, iface, kind), (abs_dir, app) = rng.choice(list(apps.items()))
             judge(ctx, audit, iface, kind, form, abs_dir, app, path)
             ctx.case(("long", form, iface, kind, path))
+        # ---- several requests in flight on one app object: each client gets the file it asked for (vf/inflight.py)
+        pool = ["/" + rel for rel in TREE] + ["/dir", "/dir/", "/", "/nope", "/dir/nope.txt", "/../secret.txt", "/dir/../a.txt"]
+        for (form, iface, kind), (abs_dir, app) in apps.items():
+            if form != "absolute":
+                continue
+            for g in range(ctx.scale(12, 400)):
+                paths = [rng.choice(pool) for _ in range(rng.choice([2, 3, 5]))]
+                in_flight(ctx, iface, kind, app, paths)
+                ctx.case(("in-flight", iface, kind, tuple(paths)))
     finally:
         os.chdir(cwd0)
         audit.window = False
@@ -370,6 +392,10 @@ def replay(ctx, case):
               "package": dict(directory="static", package="pkgc07")}[form]
         abs_dir = os.path.join(pkg, "static") if form == "package" else served
         app = getattr(ns, case["app"])(**kw)
+        if "in_flight_paths" in case:
+            in_flight(ctx, case["iface"], case["app"], app, case["in_flight_paths"])
+            ctx.case(1)
+            return
         got = judge(ctx, audit, case["iface"], case["app"], form, abs_dir, app, case["path"], case.get("mounted_at", ""))
         print("observed:", got, "model:", sorted(model(case["app"], abs_dir, case["path"])))
         ctx.case(1)
